@@ -233,7 +233,8 @@ class Run:
             'violations': sum(self.violation_keys.values()),
         }
         if not self.replay_mode:
-            evdir = os.path.join(bootstrap.VERIF, 'evidence')
+            # runs against a scratch copy (self-validation: VERIF_REPO set) must not overwrite the real evidence
+            evdir = os.path.join(bootstrap.VERIF, 'evidence' if bootstrap.REPO == '/repo' else 'evidence-scratch')
             os.makedirs(evdir, exist_ok=True)
             tmp = os.path.join(evdir, f'.{self.prop}.json.tmp{os.getpid()}')
             with open(tmp, 'w', encoding='utf8') as f:
